@@ -1249,7 +1249,7 @@ func streamFault(g *G) { // C16
 	rid, gid := 1, 1
 	for !g.full() {
 		rec := g.chance(0.6)
-		recKinds := []string{"", "", "s500", "w503", "l400", "g418", "s599", "s200", "w404"}
+		recKinds := []string{"", "", "s500", "w503", "l400", "g418", "s599", "s200", "w404", "s502", "l403", "g451", "w100", "s304"}
 		g.routerLine(rid, routerOpt{name: "f", recover: rec, recKind: g.pick(recKinds), trace: g.chance(0.5)})
 		g.emit("use %d 1", rid)
 		g.emit("handle %d /a 1 2,3 %s", rid, encL([]string{"GET", "POST"}))
